@@ -33,10 +33,16 @@ class VerusResult:
         self.smt_ms = 0
 
 
+# Verus stops looking for further failing obligations of a function after this many.  The property-level rule of the driver ("only exact
+# clauses fail, every p_* clause holds -> undecided") is only sound if a failing p_* clause cannot be hidden behind that cap: a function has at
+# most ~10 exact clauses x a few return sites, so the cap is set well above that, and driver_main refuses to downgrade a function that reached it.
+MULTIPLE_ERRORS = int(os.environ.get('VERIF_MULTIPLE_ERRORS', '40'))
+
+
 def run_verus(unit_path, logdir, rlimit=None, threads=None, extra=(), timeout=1800):
     r = VerusResult()
     cmd = [VERUS, os.path.basename(unit_path), '--output-json', '--time', '--error-format=json',
-           '--log', 'air', '--log-dir', logdir, '--multiple-errors', '5']
+           '--log', 'air', '--log-dir', logdir, '--multiple-errors', str(MULTIPLE_ERRORS)]
     if rlimit:
         cmd += ['--rlimit', str(rlimit)]
     if threads:
